@@ -224,6 +224,31 @@ pub fn mtypes() -> Vec<MType> {
             max_len_quick: 4,
             max_len_thorough: 5,
         },
+        // another program family whose enum is also called E, with other variants and another payload
+        // type: a verdict must depend on the program at hand only, not on one checked earlier in the
+        // same thread
+        MType {
+            name: "enum-same-name-other-variants",
+            ty: Ty::Enum("E".into()),
+            defs: {
+                let mut d = Defs::default();
+                d.add_enum("E", vec![("B", Some(vec![Ty::u8()])), ("A", None), ("D", None), ("C", Some(vec![Ty::Bool]))]);
+                d
+            },
+            alphabet: vec![
+                w(),
+                e("A"),
+                e("D"),
+                et("B", vec![n()]),
+                et("B", vec![pr(0, 127, true, U8)]),
+                et("B", vec![pr(128, 255, true, U8)]),
+                et("C", vec![Pat::Bool(true)]),
+                et("C", vec![Pat::Bool(false)]),
+                et("C", vec![w()]),
+            ],
+            max_len_quick: 4,
+            max_len_thorough: 5,
+        },
         MType {
             name: "(bool,u8)",
             ty: Ty::Tup(vec![Ty::Bool, Ty::u8()]),
@@ -793,6 +818,49 @@ pub fn run(tier: Tier) -> i32 {
             samples.push(json!({"type": mt.name, "arms": l.iter().map(|k| show_pat(&mt.alphabet[*k])).collect::<Vec<_>>()}));
         }
     }
+    // the two families whose enum has the same name, alternating within the same threads: a verdict
+    // must depend on the program at hand only (no state may survive from one check to the next)
+    let mut mixed_lists = 0usize;
+    {
+        let fams: Vec<&MType> = mts.iter().filter(|m| m.name == "enum" || m.name == "enum-same-name-other-variants").collect();
+        if fams.len() == 2 {
+            let mut jobs: Vec<(usize, Vec<usize>)> = vec![];
+            for round in 0..2 {
+                for (fi, mt) in fams.iter().enumerate() {
+                    let a = mt.alphabet.len();
+                    for i in 0..a {
+                        jobs.push((fi, vec![i]));
+                        for j in 0..a {
+                            if (i + j + round) % 2 == 0 {
+                                jobs.push((fi, vec![i, j]));
+                            }
+                        }
+                    }
+                }
+            }
+            // interleave the two families
+            let (f0, f1): (Vec<_>, Vec<_>) = jobs.into_iter().partition(|(fi, _)| *fi == 0);
+            let mut inter = vec![];
+            let (mut i0, mut i1) = (f0.into_iter(), f1.into_iter());
+            loop {
+                match (i0.next(), i1.next()) {
+                    (None, None) => break,
+                    (a, b) => {
+                        inter.extend(a);
+                        inter.extend(b);
+                    }
+                }
+            }
+            mixed_lists = inter.len();
+            let done = par_range(inter.len(), &budget, |k| {
+                let (fi, l) = &inter[k];
+                let mt = fams[*fi];
+                let arms: Vec<&Pat> = l.iter().map(|x| &mt.alphabet[*x]).collect();
+                check_list(mt, &arms, &cnt, &coll);
+            });
+            complete &= done == inter.len();
+        }
+    }
     let range_text = range_text_sweep(tier, &budget, &coll);
     complete &= range_text["done"] == range_text["programs"];
     let report = Report {
@@ -813,6 +881,7 @@ pub fn run(tier: Tier) -> i32 {
             "circuit_evaluations": cnt.evals.load(Ordering::Relaxed),
             "per_type": per,
             "range_patterns_as_text": range_text,
+            "arm_lists_of_two_same-named_enum_families_alternating_in_the_same_threads": mixed_lists,
             "exhaustive": complete && !budget.hit(),
             "wall_cap_hit": budget.hit(),
         }),
